@@ -19,7 +19,8 @@ REQUIRED = [
     'Ems.C13.normalize_succeeds', 'Ems.C13.normalize_sign', 'Ems.C13.normalize_order',
     'Ems.C13.bounds_follow', 'Ems.C13.data_attached', 'Ems.C13.data_attached_profile',
     'Ems.C13.normalize_idempotent', 'Ems.C13.none_untouched_sign', 'Ems.C13.none_untouched_order',
-    'Ems.C13.none_none_identity', 'Ems.C13.others_untouched',
+    'Ems.C13.none_none_identity', 'Ems.C13.others_untouched', 'Ems.C13.normalize_rejects',
+    'Ems.C13.normalize_preserves_valid',
 ]
 RULE = ('(a) systematic block: one depth coordinate per dataset over the product {positive attribute present, '
         'absent} x {no bounds, bounds as data variable, bounds as coordinate} x {dimension coordinate, auxiliary '
@@ -419,7 +420,8 @@ def run(ctx) -> None:
         items.append((line, impl, dict(desc, op=line)))
         want = D.discovery(db)
         ctx.evaluated()
-        if got != want:
+        if got is None or set(got) != set(want):
+            # a depth coordinate that is not found is not normalised (the order alone is left to the correspondence)
             ctx.oracle_fail('discovery', desc, f'depth_coordinates = {got}, the dataset was built with {want}')
         if got is not None:
             with warnings.catch_warnings():
@@ -463,7 +465,7 @@ def run(ctx) -> None:
     ctx.exhaustive = True   # the 72 x 9 configuration product of (a) is enumerated completely
 
     # (b) random datasets with several coordinates
-    for i in range(ctx.budget(20, 200)):
+    for i in range(ctx.budget(40, 400)):
         conv = D.CONVS[i % 5]
         shared = (i % 4 == 3)
         recipe = D.random_dataset(rng, conv, positions=rng.choice(['all', 'shuffled-all', 'random']),
@@ -477,9 +479,15 @@ def run(ctx) -> None:
             names = list(names)
             rng.shuffle(names)
         one_dataset(db, names, 'random', key, vias, True)
+        if not shared:
+            # the decidable conclusions of normalize_succeeds / normalize_idempotent on the model itself
+            for (pd, dts) in OPTS:
+                pc = f"propcheck {D.dataset_str(db.sizes, db.mvars)} {','.join(names) or '-'} {opt_str(pd, dts)}"
+                items.append((pc, 's1 i1', {'recipe': recipe, 'names': list(names), 'opt': opt_str(pd, dts),
+                                            'via': 'function', 'stream': 'random', 'op': pc}))
 
     # (c) malformed stream: model against code only
-    for i in range(ctx.budget(30, 300)):
+    for i in range(ctx.budget(40, 400)):
         conv = D.CONVS[i % 5]
         recipe, names, label = malformed_recipe(rng, conv)
         try:
